@@ -371,7 +371,12 @@ func (g *gctx) nextRequest(last *int64) request {
 				id = vh.Pick(r, nr)
 			}
 		}
+		if r.Chance(1, 3) {
+			return request{kDeleteFin, qspec{name: id}} // the queue carries a finalizer: it lingers as terminating
+		}
 		return request{kDelete, qspec{name: id}}
+	case roll < 92 && len(ex) > 0 && len(g.w.terminating()) > 0: // the finalizer of a terminating queue is removed
+		return request{kGone, qspec{name: vh.Pick(r, g.w.terminating())}}
 	case roll < 97 && len(ex) > 0: // status update: allocated pods (scheduler) and / or state (queue controller)
 		q := qspec{name: vh.Pick(r, ex), alloc: -1, state: -1}
 		if r.Chance(1, 2) {
@@ -421,6 +426,10 @@ func describe(r request, v int64) string {
 		return fmt.Sprintf("%s %s parent=%q cap%s des%s guar%s -> %d", op, qname(r.q.name), qname(r.q.parent), dimStr(r.q.cap), dimStr(r.q.des), dimStr(r.q.guar), v)
 	case kDelete:
 		return fmt.Sprintf("DELETE %s -> %d", qname(r.q.name), v)
+	case kDeleteFin:
+		return fmt.Sprintf("DELETE %s (has a finalizer: lingers as terminating when admitted) -> %d", qname(r.q.name), v)
+	case kGone:
+		return fmt.Sprintf("FINALIZER of %s removed", qname(r.q.name))
 	}
 	return fmt.Sprintf("STATUS %s allocated pods=%d state=%d (0 unset 1 Open 2 Closed 3 Closing 4 Unknown, -1 unchanged)", qname(r.q.name), r.q.alloc, r.q.state)
 }
@@ -474,7 +483,7 @@ func finish(h history, id, kind string, emit emitFn) {
 		before := fmt.Sprint(w.dump())
 		v := w.step(r)
 		descs = append(descs, describe(r, v))
-		if r.kind != kEnv && fmt.Sprint(w.dump()) != before {
+		if r.kind != kEnv && r.kind != kGone && fmt.Sprint(w.dump()) != before {
 			changed++
 		}
 		st := map[int64]qspec{}
@@ -561,6 +570,16 @@ func gen(rng *vh.Rng, n int, emit func(id string, sel int, in []int64, kind stri
 		{kCreate, qspec{name: 7, parent: 1, cap: eph(5000)}}, mv(5, 7),
 		{kCreate, qspec{name: 8, parent: 1, cap: rl{{1, 7}, {7, 7000}}}}, mv(5, 8)}},
 		"fixed-capability-ephemeral-storage-unit", "fixed/reparent-subtree-capability", emit)
+	// a terminating child (DELETE admitted, finalizer pending) still counts: p (10000) <- a (6000, terminating);
+	// b 6000 refused, DELETE p refused (a is still its child); finalizer removed: b 6000 admitted
+	fin := func(id int64) request { return request{kDeleteFin, qspec{name: id}} }
+	gone := func(id int64) request { return request{kGone, qspec{name: id}} }
+	finish(history{config{5, 0, 0, 0}, []qspec{root, def}, []request{
+		{kCreate, ten(3, 1, 10000)}, {kCreate, ten(4, 3, 6000)}, fin(4),
+		{kCreate, ten(5, 3, 6000)}, {kDelete, qspec{name: 3}}, fin(3), {kCreate, ten(6, 4, 1000)},
+		gone(4), {kCreate, ten(5, 3, 6000)}, {kDelete, qspec{name: 3}},
+		{kDelete, qspec{name: 6}}, gone(4), {kCreate, ten(5, 3, 6000)}}},
+		"fixed-terminating-child", "fixed/terminating-child", emit)
 	// the root queue itself given a parent
 	finish(history{config{5, 0, 1, 0}, []qspec{root, def}, []request{mk(3, 1), mk(4, 3), mv(1, 4), mv(1, 1), mk(5, 4), mv(3, 5)}},
 		"fixed-root-reparent", "fixed/root-given-a-parent", emit)
@@ -604,7 +623,7 @@ func gen(rng *vh.Rng, n int, emit func(id string, sel int, in []int64, kind stri
 			if !g.w.poisoned {
 				g.clean = false
 				p1, p2 := g.nextRequest(&last), g.nextRequest(&last)
-				if p1.kind != kEnv && p2.kind != kEnv {
+				if p1.kind != kEnv && p2.kind != kEnv && p1.kind != kGone && p2.kind != kGone {
 					in := append(append(h.enc(), p1.enc()...), p2.enc()...)
 					emit(fmt.Sprintf("pair-%d", i), 2, in, "concurrent-pair/random", len(h.reqs) >= 3, map[string]any{"first": describe(p1, -1), "second": describe(p2, -1)})
 				}
